@@ -1446,12 +1446,17 @@ theorem connackPost_X {w : World} (k : Nat) (sp : Bool) (hI : Inv02 w) :
     Inv02 (connackPost w k sp) := by
   have h1 : Inv02 (connackFlags w sp) :=
     hI.env (EnvSame.of_conns rfl rfl rfl rfl) rfl rfl rfl rfl
-  have h2 : Inv02 (connackTasks (connackFlags w sp) sp) := by
-    unfold connackTasks
+  have h2 : Inv02 (connackResub (connackFlags w sp) sp) := by
+    unfold connackResub
     split
-    · exact (h1.pushMisc _ rfl).pushMisc _ rfl
     · exact h1.pushMisc _ rfl
-  exact h2.env (EnvSame.of_conns rfl rfl rfl rfl) rfl rfl rfl rfl
+    · exact h1
+  have h3 : Inv02 (connackTasks (connackFlags w sp) sp) := by
+    unfold connackTasks connackRetry
+    split
+    · exact h2
+    · exact h2.pushMisc _ rfl
+  exact h3.env (EnvSame.of_conns rfl rfl rfl rfl) rfl rfl rfl rfl
 
 theorem step_X {w : World} (e : Ev) (hI : Inv02 w)
     (hnew : ∀ m q, e = .app (.pub m q) → m ∉ accMsgs w)
@@ -1481,7 +1486,9 @@ theorem step_X {w : World} (e : Ev) (hI : Inv02 w)
     simp only [step]
     split
     · exact hI
-    · exact hI.env (EnvSame.of_conns rfl rfl rfl rfl) rfl rfl rfl rfl
+    · split
+      · exact hI.env (EnvSame.of_conns rfl rfl rfl rfl) rfl rfl rfl rfl
+      · exact hI.env (EnvSame.of_conns rfl rfl rfl rfl) rfl rfl rfl rfl
   | connackOk sp inb =>
     by_cases h : ∃ k, w.phase = .connackGate k
     · obtain ⟨k, hk⟩ := h
@@ -1496,14 +1503,16 @@ theorem step_X {w : World} (e : Ev) (hI : Inv02 w)
     simp only [step]
     split
     · rename_i k _
-      exact progress_X (hI.env (connectFailed_envSame w k) rfl rfl rfl rfl)
+      exact progress_X (hI.env (connectFailed_envSame w k) (connectFailed_same w k).broker
+        (connectFailed_same w k).stuck (connectFailed_same w k).taskQ (connectFailed_same w k).retryQ)
     · exact hI
   | connackNever =>
     simp only [step]
     split
     · rename_i k _
       split
-      · exact progress_X (hI.env (connectFailed_envSame w k) rfl rfl rfl rfl)
+      · exact progress_X (hI.env (connectFailed_envSame w k) (connectFailed_same w k).broker
+        (connectFailed_same w k).stuck (connectFailed_same w k).taskQ (connectFailed_same w k).retryQ)
       · exact hI
     · exact hI
   | peerClose =>
@@ -1837,12 +1846,15 @@ theorem connectFailed_K {w : World} {k : Nat} (hI : Inv12 w) (hK : KInv w)
     (hp : w.phase = .connackGate k) : KInv (connectFailed w k) := by
   have hc := hK.phase k hp
   have hlt : k < w.conns.length := by have := hI.cliLast k hc; omega
-  refine ⟨hK.stuck, hK.gor, ?_, hK.q2, hK.stash, fun k' h => by cases h⟩
+  have hf := connectFailed_same w k
+  refine ⟨hf.stuck.trans hK.stuck, fun h => by rw [hf.goroutine]; exact hK.gor (hf.gConnected ▸ h),
+    ?_, by rw [hf.broker]; exact hK.q2, by rw [hf.broker]; exact hK.stash,
+    fun k' h => absurd h (hf.phase k')⟩
   intro k' hk' ha
-  have hk'' : w.cli = some k' := hk'
-  rw [hc] at hk''; cases hk''
-  have : (getConn (connectFailed w k) k).alive = false :=
-    getConn_kill_self { w with connReady := true } k hlt
+  rw [hf.cli, hc] at hk'; cases hk'
+  have : (getConn (connectFailed w k) k).alive = false := by
+    rw [getConn_congr hf.conns]
+    exact getConn_kill_self { w with connReady := true } k hlt
   rw [this] at ha; cases ha
 
 theorem getConn_setConn_alive_eq (w : World) (k k' : Nat) (c : Conn)
@@ -1897,7 +1909,10 @@ theorem step_K {w : World} (e : Ev) (hI : Inv12 w) (h0 : w.initialized = false) 
     simp only [step]
     split
     · exact ⟨fun _ => hK, fun _ => h0⟩
-    · exact ⟨fun _ => hK.congr rfl rfl rfl rfl rfl (fun _ h => h) rfl rfl, fun _ => h0⟩
+    · split
+      · exact ⟨fun _ => ⟨hK.stuck, hK.gor, hK.gate, hK.q2, hK.stash, (fun k h => by cases h)⟩,
+          fun _ => h0⟩
+      · exact ⟨fun _ => hK.congr rfl rfl rfl rfl rfl (fun _ h => h) rfl rfl, fun _ => h0⟩
   | connackOk sp inb =>
     refine ⟨?_, fun h => absurd rfl (h sp inb)⟩
     by_cases h : ∃ k, w.phase = .connackGate k
@@ -1918,19 +1933,24 @@ theorem step_K {w : World} (e : Ev) (hI : Inv12 w) (h0 : w.initialized = false) 
     simp only [step]
     split
     · rename_i k hk
-      have hI1 : Inv12 (connectFailed w k) := hI.env (connectFailed_envSame w k) rfl rfl
+      have hI1 : Inv12 (connectFailed w k) := hI.env (connectFailed_envSame w k)
+          (connectFailed_same w k).taskQ (connectFailed_same w k).retryQ
       have hp := (progress_inv hI1).2
-      exact ⟨fun _ => progress_K hI1 h0 (connectFailed_K hI hK hk), fun _ => hp.initialized.trans h0⟩
+      exact ⟨fun _ => progress_K hI1 ((connectFailed_same w k).initialized.trans h0)
+        (connectFailed_K hI hK hk),
+        fun _ => hp.initialized.trans ((connectFailed_same w k).initialized.trans h0)⟩
     · exact ⟨fun _ => hK, fun _ => h0⟩
   | connackNever =>
     simp only [step]
     split
     · rename_i k hk
       split
-      · have hI1 : Inv12 (connectFailed w k) := hI.env (connectFailed_envSame w k) rfl rfl
+      · have hI1 : Inv12 (connectFailed w k) := hI.env (connectFailed_envSame w k)
+          (connectFailed_same w k).taskQ (connectFailed_same w k).retryQ
         have hp := (progress_inv hI1).2
-        exact ⟨fun _ => progress_K hI1 h0 (connectFailed_K hI hK hk),
-          fun _ => hp.initialized.trans h0⟩
+        exact ⟨fun _ => progress_K hI1 ((connectFailed_same w k).initialized.trans h0)
+          (connectFailed_K hI hK hk),
+          fun _ => hp.initialized.trans ((connectFailed_same w k).initialized.trans h0)⟩
       · exact ⟨fun _ => hK, fun _ => h0⟩
     · exact ⟨fun _ => hK, fun _ => h0⟩
   | peerClose =>
@@ -1998,7 +2018,11 @@ theorem step_init_mono {w : World} (e : Ev) (hI : Inv12 w)
     · have := (progress_inv (accept_inv r hI (fun m q h => hnew m q (by rw [h])))).2.initialized
       exact this.trans h1
   | dialOk idStart => simp only [step]; split <;> exact h1
-  | dialFail => simp only [step]; split <;> exact h1
+  | dialFail =>
+    simp only [step]
+    split
+    · exact h1
+    · split <;> exact h1
   | connackOk sp inb =>
     by_cases h : ∃ k, w.phase = .connackGate k
     · obtain ⟨k, hk⟩ := h
@@ -2015,14 +2039,18 @@ theorem step_init_mono {w : World} (e : Ev) (hI : Inv12 w)
     simp only [step]
     split
     · rename_i k _
-      exact ((progress_inv (hI.env (connectFailed_envSame w k) rfl rfl)).2.initialized).trans h1
+      exact ((progress_inv (hI.env (connectFailed_envSame w k) (connectFailed_same w k).taskQ
+        (connectFailed_same w k).retryQ)).2.initialized).trans
+        ((connectFailed_same w k).initialized.trans h1)
     · exact h1
   | connackNever =>
     simp only [step]
     split
     · rename_i k _
       split
-      · exact ((progress_inv (hI.env (connectFailed_envSame w k) rfl rfl)).2.initialized).trans h1
+      · exact ((progress_inv (hI.env (connectFailed_envSame w k) (connectFailed_same w k).taskQ
+          (connectFailed_same w k).retryQ)).2.initialized).trans
+          ((connectFailed_same w k).initialized.trans h1)
       · exact h1
     · exact h1
   | peerClose =>
